@@ -142,6 +142,45 @@ const OTHER_RULES: [&str; 8] = [
     "example.com##+js(sl0, leak)",
 ];
 
+/// Rules that are accepted but change no answer on the current tree (kept in the alphabet: they
+/// still travel through the format, and become visible when the engine starts honouring them).
+///  - `$tag` + `$important`: `importants` is probed with the empty tag set (DESIGN §6 D10)
+///  - `$tag` + `$redirect`: marked unsupported in Blocker::new; both halves are probed with the empty tag set
+const INERT_TODAY: [&str; 2] = ["bar$tag=t1,important", "||ads.net^$tag=t2,redirect=a"];
+
+/// Sensitivity self-test: (rule, the same rule as it would behave if one wire field were dropped
+/// or altered, context rule). The battery must tell every pair apart, otherwise a loader that
+/// loses that field would pass unnoticed. Checked at start-up (machinery, not a verdict).
+const FIELD_MUTANTS: [(&str, &str, &str); 27] = [
+    ("bar$domain=~example.com", "bar", ""),                                  // opt_not_domains
+    ("foo$domain=example.com", "foo", ""),                                   // opt_domains
+    ("*$domain=example.com|tracker.co.uk", "*$domain=example.com", ""),      // second domain hash
+    ("foo$third-party", "foo", ""),                                          // FIRST_PARTY bit
+    ("bar$~third-party,script", "bar$script", ""),                           // THIRD_PARTY bit
+    ("bar$~third-party,script", "bar$~third-party", ""),                     // type bits
+    ("ads$image", "ads", ""),
+    ("/bar$~image", "/bar", ""),
+    ("||ads.net^$document", "||ads.net^$script", ""),                        // FROM_DOCUMENT
+    ("||ads.net^$redirect=a", "||ads.net^$redirect=b", ""),                  // modifier value
+    ("||ads.net^$redirect=a", "||ads.net^", ""),                             // IS_REDIRECT
+    ("foo$redirect-rule=b", "foo$redirect=b", ""),                           // ALSO_BLOCK_REDIRECT
+    ("bar$redirect=a-alias:5", "bar$redirect=a-alias", "bar$redirect=b:3"),  // priority suffix
+    ("||example.com^$csp=script-src 'none'", "||example.com^$csp=img-src 'self'", ""),
+    ("@@||example.com^$csp=script-src 'none'", "@@||example.com^$csp", "||example.com^$csp=img-src 'self'"),
+    ("foo$tag=t1", "foo$tag=t2", ""),                                        // tag text
+    ("/Fo+\\/bar/$match-case", "/Fo+\\/bar/", ""),                           // MATCH_CASE
+    ("||ads.net/foo", "||a.ads.net/foo", ""),                                // hostname
+    ("/bar|", "/bar", ""),                                                   // right anchor
+    ("|https://ads.net/", "https://ads.net/", ""),                           // left anchor
+    ("ads/foo/bar$important", "ads/foo/bar", ""),                           // IS_IMPORTANT
+    ("example.com##.ad-box", "sub.example.com##.ad-box", ""),                // host hash
+    ("example.*##.entity-ad", "example.com##.entity-ad", ""),                // entity hash
+    ("example.com##.styled:style(color: red)", "example.com##.styled:style(color: blue)", ""),
+    ("example.com##+js(sl1, alpha)", "example.com##+js(sl1, beta)", ""),
+    ("##.gen-class > .child", "##.gen-class > .other", ""),
+    ("example.com##.rma:remove-attr(href)", "example.com##.rma:remove-attr(src)", ""),
+];
+
 type RuleRef = (String, Fm);
 
 fn rule_tags(rules: &[RuleRef]) -> Vec<&'static str> {
@@ -297,6 +336,7 @@ fn battery() -> Battery {
         ("https://example.com/frame?x=1&utm=1", "subdocument"),
         ("https://www.example.com/http", "script"),
         ("https://b\u{fc}cher.example/bar", "script"),
+        ("https://unrelated.org/r?u=https://ads.net/", "script"),
     ] {
         let s = "https://example.com/page";
         let r = Request::new(u, s, t).expect("battery URL must parse");
@@ -509,8 +549,10 @@ fn describe(q: Q, bat: &Battery) -> Value {
             json!({"get_csp_directives": {"url": n.1, "source": n.2, "type": n.3}})
         }
         Q::Cos(i) => json!({"url_cosmetic_resources": bat.cos[i]}),
-        Q::Sel(i) => json!({"hidden_class_id_selectors": {"classes": bat.sel[i].0, "ids": bat.sel[i].1,
-            "exceptions": ["none", "every selector of the alphabet", "exceptions reported for https://example.com/"][bat.sel[i].2 as usize]}}),
+        Q::Sel(i) => {
+            let exc = ["none", "every selector of the alphabet", "exceptions reported for https://example.com/"][bat.sel[i].2 as usize];
+            json!({"hidden_class_id_selectors": {"classes": bat.sel[i].0, "ids": bat.sel[i].1, "exceptions": exc}})
+        }
     }
 }
 
@@ -823,7 +865,7 @@ fn self_check(bat: &Battery, qs: &[Q]) -> Result<(), String> {
             return Err(format!("alphabet rule {:?} is rejected by the parser", r));
         }
     }
-    for (r, _) in OTHER_RULES.iter().map(|r| (r, ())) {
+    for r in OTHER_RULES.iter() {
         let (_, n) = filter_set(&[(r.to_string(), Fm::Std)], true, 0);
         if n != 1 {
             return Err(format!("loader rule {:?} is rejected by the parser", r));
@@ -877,8 +919,26 @@ fn self_check(bat: &Battery, qs: &[Q]) -> Result<(), String> {
         all_exc.insert(".gen-class".into());
         let ans: Vec<Ans> = qs.iter().map(|&q| ask(&e, q, bat, if matches!(q, Q::Sel(_)) { &all_exc } else { &none })).collect();
         let refs_differ = ans.iter().zip(reference.iter()).any(|(a, b)| a != b);
-        if !refs_differ {
+        if !refs_differ && !INERT_TODAY.contains(r) {
             return Err(format!("alphabet rule #{} {:?} changes no answer of the battery: its loss would be invisible", i, r));
+        }
+    }
+    for (rule, mutant, context) in FIELD_MUTANTS {
+        let mk = |r: &str| -> Result<Vec<Ans>, String> {
+            let mut list = vec![(r.to_string(), Fm::Std)];
+            if !context.is_empty() {
+                list.push((context.to_string(), Fm::Std));
+            }
+            let (_, n) = filter_set(&list, true, 1);
+            if n != list.len() {
+                return Err(format!("sensitivity rule {:?} is rejected by the parser", r));
+            }
+            let mut e = build(&list, true, false, 1)?;
+            e.use_tags(&["t1"]);
+            Ok(qs.iter().map(|&q| ask(&e, q, bat, &none)).collect())
+        };
+        if mk(rule)? == mk(mutant)? {
+            return Err(format!("the battery cannot tell {:?} from {:?}: a loader losing that field would pass", rule, mutant));
         }
     }
     Ok(())
